@@ -14,6 +14,9 @@ var (
 	CacheTypeMemory CacheType = "memory"
 )
 
+// The most lock shards a cache may be given. The locks are allocated up front and indexed with 32 bits.
+const maxLockShards = 1 << 20
+
 type FileCacheConfig struct {
 	Dir ConfigProp[string] `json:"dir"` // The directory where cached files will be stored.
 }
@@ -43,6 +46,9 @@ func (c *CacheConfig) verify(v view) error {
 	}
 	if c.CleanupInterval.pending(v).Cast() <= 0 {
 		return fmt.Errorf("cache.cleanup_interval must be greater than 0")
+	}
+	if c.LockShards.pending(v) < 1 || c.LockShards.pending(v) > maxLockShards {
+		return fmt.Errorf("cache.lock_shards must be between 1 and %d", maxLockShards)
 	}
 	if c.Memory.MemoryBudgetPercent.pending(v) < 0 || c.Memory.MemoryBudgetPercent.pending(v) > 100 {
 		return fmt.Errorf("cache.memory.memory_budget_percent must be between 0 and 100")
